@@ -207,6 +207,11 @@ def run_impl(inp, extra_kwargs=None, predictor=None):
             for k, pts in enumerate(frames):
                 yield t0 + k * ts, np.array(pts, dtype=float).reshape(len(pts), dim) * scale_of(inp)
         gen = tp.link_iter(it(), sr, **kw)
+        # two kinds of consumer: one reads each yielded list at once, the other keeps the yielded
+        # objects and reads them when the generator is exhausted (`list(tp.link_iter(...))`): what was
+        # yielded for a level must not change afterwards
+        eager = (len(frames) + inp.get("memory", 0)) % 2 == 0
+        kept = []
         k = 0
         while True:
             try:
@@ -214,10 +219,12 @@ def run_impl(inp, extra_kwargs=None, predictor=None):
             except StopIteration:
                 break
             except SubnetOversizeException:
-                levels.append((t0 + k * ts, frames[k], None))
+                kept.append((t0 + k * ts, k, None))
                 break
-            levels.append((int(t), frames[k], [int(i) for i in ids]))
+            kept.append((int(t), k, ids if eager else [int(i) for i in ids]))
             k += 1
+        for t, k, ids in kept:
+            levels.append((t, frames[k], None if ids is None else [int(i) for i in ids]))
         return levels
     if entry == "link_df_iter":
         given = []
